@@ -187,6 +187,18 @@ def replay_chain(chk, case):
         kind, shape, items, ps = project(res)
         if not (kind == want_kind and len(items) == len(want_items) and all(coords.close(a, b, 1e-9) for a, b in zip(items, want_items))):
             chk.violation("value:%s:nary" % kinds, "compose_qoperations(*chain) differs from the quantum-mechanical value for %s" % names, dict(chain=chain))
+        # the same call with ONE list argument (the other documented form): same result, and the caller's list is an operand
+        lst = list(reversed(objs))
+        keep = list(lst)
+        res2 = compose_qoperations(lst)
+        res3 = compose_qoperations(lst)
+        k2, _, items2, _ = project(res2)
+        k3, _, items3, _ = project(res3)
+        if len(lst) != len(keep) or any(a_ is not b_ for a_, b_ in zip(lst, keep)):
+            chk.violation("nary:list_argument_modified:%s" % kinds, "compose_qoperations([...]) changed the list it was given (%d -> %d elements) for %s" % (len(keep), len(lst), names), dict(chain=chain))
+        elif not (k2 == k3 == want_kind and len(items2) == len(items3) == len(want_items) and all(coords.close(a_, b_, 1e-9) for a_, b_ in zip(items2, want_items))
+                  and all(coords.close(a_, b_, 1e-9) for a_, b_ in zip(items3, want_items))):
+            chk.violation("value:%s:nary_list" % kinds, "compose_qoperations([chain]) (called twice on one list) differs from the quantum-mechanical value for %s" % names, dict(chain=chain))
     except Exception as e:
         chk.violation("exception:%s:nary" % kinds, "%r" % e, dict(chain=chain))
     if want_kind == "D":
